@@ -351,8 +351,8 @@ var vpInitCaptured bool
 var vpCurTime int64 // the instant at which the harness presents the token (<= every later time.Now)
 
 func vpNow() time.Time {
-	if !vpSymbolic() && vpCur == nil {
-		// native build, package initialisation (no input vector yet)
+	if !vpInitCaptured {
+		// asked during package initialisation, before any harness runs: the earliest instant
 		vpNowCalls++
 		vpLastNow = 978307200
 		return time.Unix(vpLastNow, 0)
